@@ -37,6 +37,9 @@ type DistLog struct {
 type DistCase struct {
 	WitnessName string    `json:"witness_name"`
 	Logs        []DistLog `json:"logs"`
+	// Rounds > 1: DistributeOnce is called that many times on the same Distributor (as
+	// the periodic distributor does); every round must behave like the first
+	Rounds int `json:"rounds,omitempty"`
 }
 
 var witnessAnswers = []string{"valid", "valid", "valid", "valid-dupwit", "valid-extra-unknown", "missing", "error", "wronglogkey", "nowitsig", "badwitsig", "otherwitness", "nologsig", "corrupted", "otherlog", "otherlog-configured", "otherlog-configured", "wrongorigin-samekey", "empty", "legacywitsig", "error-deadline"}
@@ -58,6 +61,9 @@ type distReq struct {
 var distPathRE = regexp.MustCompile(`^/distributor/v0/logs/([^/]+)/byWitness/([^/]+)/checkpoint$`)
 
 func (d *distStub) RoundTrip(r *http.Request) (*http.Response, error) {
+	if err := r.Context().Err(); err != nil {
+		return nil, err // like a real transport: a request whose context is over is not sent
+	}
 	var body []byte
 	if r.Body != nil {
 		body, _ = io.ReadAll(r.Body)
@@ -153,13 +159,7 @@ func runDist(c *DistCase) (bool, []string, error) {
 	var logs []config.Log
 	dw := &distWitness{answers: map[string]func() ([]byte, error){}}
 	ds := &distStub{plan: map[string]string{}}
-	type expect struct {
-		id    string
-		valid bool
-		bytes []byte
-		ok    bool // final outcome for this log is success
-	}
-	var exps []expect
+	var exps []distExpect
 	var classes []string
 	for i, l := range c.Logs {
 		key := vlib.NewKey(fmt.Sprintf("logkey%d", l.KeyIdx), fmt.Sprintf("dlog%d", l.KeyIdx))
@@ -229,15 +229,47 @@ func runDist(c *DistCase) (bool, []string, error) {
 		dw.answers[lc.ID] = func() ([]byte, error) { return bb, ee }
 		ds.plan[lc.ID] = l.Distrib
 		ok := valid && (l.Distrib == "200" || l.Distrib == "200-slow" || l.Distrib == "200-bigbody" || l.Distrib == "307-200" || l.Distrib == "308-200")
-		exps = append(exps, expect{id: lc.ID, valid: valid, bytes: b, ok: ok})
+		exps = append(exps, distExpect{id: lc.ID, valid: valid, bytes: b, ok: ok})
 		classes = append(classes, "wit:"+l.Witness, "dist:"+l.Distrib)
 	}
 	d, err := rest.NewDistributor("http://distributor.example", &http.Client{Transport: ds}, logs, witV, dw)
 	if err != nil {
 		return false, classes, fmt.Errorf("harness: NewDistributor: %v", err)
 	}
-	derr := d.DistributeOnce(context.Background())
+	rounds := c.Rounds
+	if rounds < 1 {
+		rounds = 1
+	}
+	var nontrivialAny bool
+	for round := 0; round < rounds; round++ {
+		ds.mu.Lock()
+		ds.reqs = nil
+		ds.mu.Unlock()
+		derr := d.DistributeOnce(context.Background())
+		nt, err := checkDistRound(c, ds, exps, derr)
+		nontrivialAny = nontrivialAny || nt
+		if err != nil {
+			if rounds > 1 {
+				err = fmt.Errorf("round %d of %d on one Distributor: %w", round+1, rounds, err)
+			}
+			return nontrivialAny || rounds > 1, classes, err
+		}
+	}
+	if rounds > 1 {
+		classes = append(classes, fmt.Sprintf("rounds:%d", rounds))
+	}
+	return nontrivialAny, classes, nil
+}
 
+type distExpect struct {
+	id    string
+	valid bool
+	bytes []byte
+	ok    bool // final outcome for this log is success
+}
+
+// checkDistRound applies the C15 oracle to one DistributeOnce call.
+func checkDistRound(c *DistCase, ds *distStub, exps []distExpect, derr error) (bool, error) {
 	// non-trivial: >=2 logs with a failing class before a valid one
 	nontrivial := false
 	sawFail := false
@@ -250,17 +282,20 @@ func runDist(c *DistCase) (bool, []string, error) {
 	}
 	// first-hop requests
 	byID := map[string][]distReq{}
-	for _, r := range ds.reqs {
+	ds.mu.Lock()
+	reqs := append([]distReq{}, ds.reqs...)
+	ds.mu.Unlock()
+	for _, r := range reqs {
 		if r.Hop != 0 {
 			continue
 		}
 		m := distPathRE.FindStringSubmatch(r.Path)
 		if m == nil {
-			return nontrivial, classes, fmt.Errorf("request to unexpected path %q", r.Path)
+			return nontrivial, fmt.Errorf("request to unexpected path %q", r.Path)
 		}
 		name, uerr := url.PathUnescape(m[2])
 		if uerr != nil || name != c.WitnessName {
-			return nontrivial, classes, fmt.Errorf("request path %q does not name the witness key %q", r.Path, c.WitnessName)
+			return nontrivial, fmt.Errorf("request path %q does not name the witness key %q", r.Path, c.WitnessName)
 		}
 		byID[m[1]] = append(byID[m[1]], r)
 	}
@@ -271,17 +306,17 @@ func runDist(c *DistCase) (bool, []string, error) {
 		rs := byID[e.id]
 		if !e.valid {
 			if len(rs) != 0 {
-				return nontrivial, classes, fmt.Errorf("log %d (witness answer %q): %d requests sent to the distributor, want none", i, c.Logs[i].Witness, len(rs))
+				return nontrivial, fmt.Errorf("log %d (witness answer %q): %d requests sent to the distributor, want none", i, c.Logs[i].Witness, len(rs))
 			}
 		} else {
 			if len(rs) != 1 {
-				return nontrivial, classes, fmt.Errorf("log %d (valid checkpoint, distributor %q; earlier logs may have failed): %d requests sent to the distributor, want exactly 1", i, c.Logs[i].Distrib, len(rs))
+				return nontrivial, fmt.Errorf("log %d (valid checkpoint, distributor %q; earlier logs may have failed): %d requests sent to the distributor, want exactly 1", i, c.Logs[i].Distrib, len(rs))
 			}
 			if rs[0].Method != http.MethodPut {
-				return nontrivial, classes, fmt.Errorf("log %d: method %s, want PUT", i, rs[0].Method)
+				return nontrivial, fmt.Errorf("log %d: method %s, want PUT", i, rs[0].Method)
 			}
 			if !bytes.Equal(rs[0].Body, e.bytes) {
-				return nontrivial, classes, fmt.Errorf("log %d: distributor received bytes that differ from what the witness reported:\n got %q\nwant %q", i, rs[0].Body, e.bytes)
+				return nontrivial, fmt.Errorf("log %d: distributor received bytes that differ from what the witness reported:\n got %q\nwant %q", i, rs[0].Body, e.bytes)
 			}
 		}
 		if !e.ok {
@@ -290,28 +325,28 @@ func runDist(c *DistCase) (bool, []string, error) {
 	}
 	for id := range byID {
 		if !known[id] {
-			return nontrivial, classes, fmt.Errorf("request for an ID that is not configured: %s", id)
+			return nontrivial, fmt.Errorf("request for an ID that is not configured: %s", id)
 		}
 	}
 	if failed == 0 {
 		if derr != nil {
-			return nontrivial, classes, fmt.Errorf("every log distributed fine but DistributeOnce failed: %v", derr)
+			return nontrivial, fmt.Errorf("every log distributed fine but DistributeOnce failed: %v", derr)
 		}
 	} else {
 		if derr == nil {
-			return nontrivial, classes, fmt.Errorf("%d of %d logs failed but DistributeOnce reported success", failed, len(exps))
+			return nontrivial, fmt.Errorf("%d of %d logs failed but DistributeOnce reported success", failed, len(exps))
 		}
 		m := regexp.MustCompile(`(\d+) out of (\d+)`).FindStringSubmatch(derr.Error())
 		if m != nil {
 			if m[1] != strconv.Itoa(failed) || m[2] != strconv.Itoa(len(exps)) {
-				return nontrivial, classes, fmt.Errorf("DistributeOnce reports %s of %s failed logs, want %d of %d", m[1], m[2], failed, len(exps))
+				return nontrivial, fmt.Errorf("DistributeOnce reports %s of %s failed logs, want %d of %d", m[1], m[2], failed, len(exps))
 			}
 		}
 	}
-	return nontrivial, classes, nil
+	return nontrivial, nil
 }
 
-const ruleC15 = "1-6 logs x witness answer class (18, incl. a storage timeout) x distributor answer class (17, incl. redirects that rewrite or preserve the method and a transport timeout while the caller's context is live); oracle on the stub distributor's first-hop request log and DistributeOnce's error; non-trivial = >=2 logs with a failing class before a succeeding one; distinct by case hash"
+const ruleC15 = "1-6 logs x witness answer class (18, incl. a storage timeout) x distributor answer class (17, incl. redirects that rewrite or preserve the method and a transport timeout while the caller's context is live); 30% of the cases call DistributeOnce 2-3 times on the same Distributor; oracle on the stub distributor's first-hop request log and DistributeOnce's error, per call; non-trivial = >=2 logs with a failing class before a succeeding one; distinct by case hash"
 
 func distHash(c *DistCase) string {
 	b, _ := json.Marshal(c)
@@ -331,6 +366,9 @@ func TestC15(t *testing.T) {
 				Distrib: distribAnswers[vlib.Uniform(rt, len(distribAnswers), "dans")],
 				Size:    rapid.IntRange(0, 30).Draw(rt, "size"),
 			})
+		}
+		if vlib.Pct(rt, 30, "multiround") {
+			c.Rounds = rapid.IntRange(2, 3).Draw(rt, "rounds")
 		}
 		nt, classes, err := runDist(c)
 		st.Record(distHash(c), nt, classes, vlib.SampleOf(c))
